@@ -175,6 +175,22 @@ def Layout.createFullStateOld (L : Layout) (st : FullState α) (v r : List α) :
 def Layout.unMeasureG (fix : Bool) (L : Layout) (subMeasure : Nat → α) : Option α :=
   if L.hasUninformedG fix then some (subMeasure L.un) else none
 
+/-- which informed sampler `InformedStateSampler(probDefn, maxNumberCalls, costFunc)` wraps: the OBJECTIVE's
+`allocInformedStateSampler` — `PathLengthOptimizationObjective` overrides it with the direct sampler, the base-class default is
+the rejection sampler; `maxNumberCalls` is forwarded as `numIters_` -/
+inductive ObjKind where
+  | pathLength | other
+  deriving DecidableEq, Repr
+
+inductive InfKind where
+  | direct | rejection
+  deriving DecidableEq, Repr
+
+def allocInformed (o : ObjKind) (maxCalls : Nat) : InfKind × Nat :=
+  match o with
+  | .pathLength => (.direct, maxCalls)
+  | .other => (.rejection, maxCalls)
+
 /-- the public three-argument `sampleUniform` with the glue made explicit: the lower-bound test calls `heuristicSolnCost(statePtr)`,
 which reads `getInformedSubstate` of the state `createFullState` wrote — `view st` is that informed substate of the returned
 state (`fun st => st.1` when the glue is sound: then this is `Sampler.sample3G`, theorem `sample3GV_id`) -/
